@@ -462,6 +462,32 @@ def check_property(prop: str, tier: str, seed: int, quiet: bool = False) -> int:
                       open(rp, "w"), indent=1)
             tail = "" if cex else " no-failing-input-found"
             out_lines.append(f"VIOLATION property={prop} replay={rp}{tail}")
+    # thorough tier: bounded Kani / CBMC stand-ins for the assumed leaves (never counted as proof)
+    bounded = []
+    if tier == "thorough":
+        try:
+            import kani_run
+            kres = kani_run.run(prop)
+        except Exception as e:
+            kres = [{"name": "(kani)", "leaf": "", "kind": "bounded", "bound": "", "status": "undecided", "reason": f"kani driver error: {e}", "seconds": 0}]
+        for k in kres:
+            bounded.append({"function": k.get("leaf"), "harness": k["name"], "bound": k.get("bound"), "back_end": "kani 0.68 / cbmc 6.11 (bounded model checking of the compiled function on a scratch copy)",
+                            "status": {"passed": "no counterexample within the bound", "failed": "COUNTEREXAMPLE", "undecided": "not completed: " + str(k.get("reason", ""))[:300]}[k["status"]],
+                            "checks": k.get("checks"), "seconds": k.get("seconds")})
+            if k["status"] == "failed":
+                rc = 1
+                rdir = os.path.join(os.environ.get("VERIF_REPLAY_DIR") or os.path.join(ROOT, "replay"), prop)
+                os.makedirs(rdir, exist_ok=True)
+                rp = os.path.join(rdir, "kani_" + k["name"] + ".json")
+                rep = k.get("replay") or {}
+                json.dump({"property": prop, "obligation": f"kani/{k['name']}", "function": k.get("leaf"), "bound": k.get("bound"),
+                           "failed_checks": k.get("failed_checks"), "counterexample_test": k.get("counterexample_test"),
+                           "replayed_against_real_code": rep, "kani_output": k.get("output_tail"),
+                           "note": "bounded harness in kani/" + str(k.get("code")) + "; the concrete playback test above was executed with `cargo kani playback` on a scratch copy of /repo"},
+                          open(rp, "w"), indent=1)
+                tail = "" if rep.get("failed_on_real_code") else " no-failing-input-found"
+                out_lines.append(f"VIOLATION property={prop} replay={rp}{tail}")
+                violations.append((None, {"oid": f"kani/{k['name']}"}))
     if rc == 0 and (undecided or notbase or unstable):
         rc = 2
     n_obl = len(obligations)
@@ -495,7 +521,8 @@ def check_property(prop: str, tier: str, seed: int, quiet: bool = False) -> int:
                                for r in results for fid, info in r.functions.items() if info.get("assumed")],
             "proof_hints_skipped": [x for r in results for x in r.skipped],
             "machine_arithmetic": "u64/u128/usize are machine integers with overflow as a proof obligation (strict units) or as abort = revert via E8 partial operators (relaxed units, listed in call_site_rewrites); spec-level sums are mathematical integers",
-            "bounded": [], "known_findings": kf_results, "unstable": unstable,
+            "bounded": bounded, "bounded_note": ("bounded stand-ins listed above are NOT proof" if bounded else "the bounded Kani stand-ins for the assumed leaves (kani/harnesses.json) run in the thorough tier only"),
+            "known_findings": kf_results, "unstable": unstable,
             "undecided": [{"unit": r.unit, "reason": r.reason} for r in undecided] + ([{"not_in_baseline": notbase}] if notbase else []),
             "failed_obligations": [f["oid"] for _, f in failed],
             "explanation": "every listed obligation is a Verus verification condition generated from the current text of the /repo functions under contract",
@@ -539,6 +566,16 @@ def update_baseline():
 def replay(path: str) -> int:
     d = json.load(open(path))
     prop = d["property"]
+    if str(d.get("obligation", "")).startswith("kani/"):
+        import kani_run
+        res = kani_run.run(None, d["obligation"].split("/", 1)[1])
+        for k in res:
+            print(f"replay: kani harness {k['name']}: {k['status']} in {k['seconds']} s")
+            if k["status"] == "failed":
+                print((k.get("counterexample_test") or "")[:2000])
+                print(f"VIOLATION property={prop} replay={path}" + ("" if (k.get("replay") or {}).get("failed_on_real_code") else " no-failing-input-found"))
+                return 1
+        return 0 if all(k["status"] == "passed" for k in res) else 2
     unit = d["unit"]
     sp = os.path.join(ROOT, "specs", unit + ".vs")
     kf_omit = set(k["obligation"] for k in load_kf() if k.get("status") == "known")
